@@ -420,10 +420,10 @@ def r6_links_and_empty_pages(ctx, rep):
 
 
 RULES = [
-    RuleSpec("C17.R6", r6_links_and_empty_pages, "link fragments survive; an empty page is harmless", floor=3),
-    RuleSpec("C17.R1", r1_containment, "containment of a bad page", floor=5),
-    RuleSpec("C17.R2", r2_order, "ordering and exactly-once pages", floor=7),
-    RuleSpec("C17.R3", r3_layout_names, "layout names agree", floor=7),
-    RuleSpec("C17.R4", r4_conversion_path, "conversion path per page", floor=4),
-    RuleSpec("C17.R5", r5_copy_for_every_page, "assets copied for every page", floor=4),
+    RuleSpec("C17.R6", r6_links_and_empty_pages, "link fragments survive; an empty page is harmless", floor=1),
+    RuleSpec("C17.R1", r1_containment, "containment of a bad page", floor=2),
+    RuleSpec("C17.R2", r2_order, "ordering and exactly-once pages", floor=3),
+    RuleSpec("C17.R3", r3_layout_names, "layout names agree", floor=4),
+    RuleSpec("C17.R4", r4_conversion_path, "conversion path per page", floor=2),
+    RuleSpec("C17.R5", r5_copy_for_every_page, "assets copied for every page", floor=2),
 ]
